@@ -23,6 +23,8 @@ type pnode struct {
 	op   string
 	k    int
 	kids []*pnode
+	lit  string      // atom spelled as a literal (string / number / true / nil) instead of an identifier
+	litv interface{} // its value
 }
 
 // binding powers as stated by the property (loosest to tightest); the real parser and the Lean
@@ -65,6 +67,9 @@ func (n *pnode) printMin(c int) string {
 	}
 	switch n.kind {
 	case "atom":
+		if n.lit != "" {
+			return n.lit
+		}
 		return fmt.Sprintf("v%d", n.k)
 	case "bin":
 		return wrap(n.kids[0].printMin(lctx(n.op))+" "+n.op+" "+n.kids[1].printMin(rbp(n.op)), lbp(n.op))
@@ -79,6 +84,9 @@ func (n *pnode) printMin(c int) string {
 	case "index":
 		return n.kids[0].printMin(2*levPostfix) + "[" + n.kids[1].printMin(0) + "]"
 	case "member":
+		if k := n.kids[0]; k.kind == "atom" && k.lit != "" && k.lit[0] >= '0' && k.lit[0] <= '9' {
+			return "(" + k.lit + ").f" // `2.f` would be read as the number `2.`
+		}
 		return n.kids[0].printMin(2*levPostfix) + ".f"
 	case "slice":
 		return n.kids[0].printMin(2*levPostfix) + "[" + n.kids[1].printMin(0) + ":" + n.kids[2].printMin(0) + "]"
@@ -107,6 +115,9 @@ func (n *pnode) slicexParts(pr func(*pnode) string) string {
 func (n *pnode) printFull() string {
 	switch n.kind {
 	case "atom":
+		if n.lit != "" {
+			return n.lit
+		}
 		return fmt.Sprintf("v%d", n.k)
 	case "bin":
 		return "(" + n.kids[0].printFull() + " " + n.op + " " + n.kids[1].printFull() + ")"
@@ -119,6 +130,9 @@ func (n *pnode) printFull() string {
 	case "index":
 		return "(" + n.kids[0].printFull() + "[" + n.kids[1].printFull() + "])"
 	case "member":
+		if k := n.kids[0]; k.kind == "atom" && k.lit != "" && k.lit[0] >= '0' && k.lit[0] <= '9' {
+			return "((" + k.lit + ").f)"
+		}
 		return "(" + n.kids[0].printFull() + ".f)"
 	case "slice":
 		return "(" + n.kids[0].printFull() + "[" + n.kids[1].printFull() + ":" + n.kids[2].printFull() + "])"
@@ -132,6 +146,9 @@ func (n *pnode) printFull() string {
 func (n *pnode) want() string {
 	switch n.kind {
 	case "atom":
+		if n.lit != "" {
+			return "(lit " + vals.Encode(n.litv) + ")"
+		}
 		return fmt.Sprintf("(id v%d)", n.k)
 	case "bin":
 		switch n.op {
@@ -186,6 +203,9 @@ func (n *pnode) leanTree() (string, bool) {
 	}
 	switch n.kind {
 	case "atom":
+		if n.lit != "" {
+			return "", false // literal atoms are outside the Lean printer's token alphabet
+		}
 		return fmt.Sprintf("(a %d)", n.k), true
 	case "bin":
 		return "(b " + n.op + " " + kids[0] + " " + kids[1] + ")", true
@@ -244,11 +264,24 @@ func (n *pnode) toks(c int) []string {
 func (n *pnode) tokens(c int) string { return strings.Join(n.toks(c), " ") }
 
 type pgen struct {
+	lits bool
 	r *rand.Rand
 	n int
 }
 
-func (g *pgen) atom() *pnode { g.n++; return &pnode{kind: "atom", k: g.n} }
+func (g *pgen) atom() *pnode {
+	g.n++
+	if g.lits && g.r.Intn(3) == 0 {
+		// literal operands: a parser that folds or rewrites constant sub-expressions is seen here
+		lits := []struct {
+			s string
+			v interface{}
+		}{{"\"a\"", "a"}, {"\"b\"", "b"}, {"\"\"", ""}, {"'c'", "c"}, {"1", int64(1)}, {"2", int64(2)}, {"0", int64(0)}, {"1.5", 1.5}, {"true", true}, {"false", false}, {"nil", nil}, {"`r`", "r"}}
+		l := lits[g.r.Intn(len(lits))]
+		return &pnode{kind: "atom", k: g.n, lit: l.s, litv: l.v}
+	}
+	return &pnode{kind: "atom", k: g.n}
+}
 
 func (g *pgen) tree(d int, binOnly bool) *pnode {
 	if d <= 0 {
@@ -332,9 +365,27 @@ func streamParse(o *Out, r *rand.Rand, n int, thorough bool) {
 		{"throw ", "", "(throw ", ")"},
 	}
 	for i := 0; i < n; i++ {
-		g := &pgen{r: r}
+		g := &pgen{r: r, lits: i%2 == 1}
 		binOnly := i%3 == 0
 		t := g.tree(1+r.Intn(5), binOnly)
+		// `-` directly in front of a number is the grammar's negative literal, not a unary operator node (covered by the literal checks)
+		var noNeg func(n *pnode)
+		noNeg = func(n *pnode) {
+			if n.kind == "un" && n.op == "-" && len(n.kids) == 1 {
+				// the leftmost leaf of the operand (through postfix forms): `-1.5[i]` is read as `(-1.5)[i]`
+				k := n.kids[0]
+				for k.kind == "call" || k.kind == "index" || k.kind == "member" || k.kind == "slice" || k.kind == "slicex" {
+					k = k.kids[0]
+				}
+				if k.kind == "atom" && k.lit != "" && k.lit[0] >= '0' && k.lit[0] <= '9' {
+					k.lit, k.litv = "", nil
+				}
+			}
+			for _, k := range n.kids {
+				noNeg(k)
+			}
+		}
+		noNeg(t)
 		pos := positions[r.Intn(len(positions))]
 		want := pos.wpre + t.want() + pos.wpost
 		if strings.Contains(want, "unsup") {
@@ -447,8 +498,10 @@ func streamParse(o *Out, r *rand.Rand, n int, thorough bool) {
 		}
 	}
 	// string literals: quoted with escapes, single-quoted, raw
-	alphabet := []string{"a", "é", " ", "\\n", "\\t", "\\r", "\\b", "\\f", "\\\\", "\\\"", "\\'", "\\q", "0", "{", "#", "//"}
-	expand := map[string]string{"\\n": "\n", "\\t": "\t", "\\r": "\r", "\\b": "\b", "\\f": "\f", "\\\\": "\\", "\\\"": "\"", "\\'": "'", "\\q": "q"}
+	// (a backslash in front of any other character - non-ASCII ones included - stands for that character)
+	alphabet := []string{"a", "é", " ", "\\n", "\\t", "\\r", "\\b", "\\f", "\\\\", "\\\"", "\\'", "\\q", "0", "{", "#", "//", "\\é", "\\世", "界", "\\€", "\\ÿ", "\\\U0001F600"}
+	expand := map[string]string{"\\n": "\n", "\\t": "\t", "\\r": "\r", "\\b": "\b", "\\f": "\f", "\\\\": "\\", "\\\"": "\"", "\\'": "'", "\\q": "q",
+		"\\é": "é", "\\世": "世", "\\€": "€", "\\ÿ": "ÿ", "\\\U0001F600": "\U0001F600"}
 	for i := 0; i < n/4+20; i++ {
 		var src, want strings.Builder
 		for j := r.Intn(6); j > 0; j-- {
